@@ -322,6 +322,9 @@ where
 
             }
 
+            // internal events raised inside the select arm (e.g. by the tick) are handled before client
+            // commands and inbound events, not one loop iteration later
+            self.drain_internal_events().await?;
             self.process_internal_events().await?;
             self.process_client_cmds().await?;
             self.process_inbound_events().await?;
@@ -394,6 +397,13 @@ where
 
     async fn process_inbound_events(&mut self) -> Result<()> {
         while !self.buffered_inbound_event.is_empty() {
+            // An inbound event may have raised an internal event that changes the role (a leader that
+            // met a higher term queues BecomeFollower and replays the request). It must take effect
+            // before the next buffered inbound event is handled: otherwise that event - a join request,
+            // say - is still served in the old role, with a term the node was never elected for.
+            self.drain_internal_events().await?;
+            self.process_internal_events().await?;
+
             // Avoid none AE event pop and push into queue
             if matches!(
                 self.buffered_inbound_event.front(),
